@@ -7,6 +7,7 @@
 //       open <qsize> <now> <src:namehex>...   (emitted by the harness: state after open + claim settle)
 //       rq <requester> <dst> <pgn>            3-byte 59904 frame received, one ParseMessages()
 //       rqraw <requester> <dst> <len> <hex8>  same with an arbitrary DLC 0..8
+//       aclaim <src> <namehex>                address claim (60928) received from <src> with NAME, one ParseMessages()
 //       poll | t <ms> | claim <dev> | acc <bits> | accdef <0|1>
 //       sweep <devs> <lo> <hi>                thorough tier: all PGNs lo..hi-1 in-process against the oracle only
 // output of rq/rqraw/poll/claim: "- <frames the driver accepted during the op>"
@@ -149,8 +150,15 @@ static std::vector<Exp> expectedFor(int d, unsigned requester, bool addressed, u
   if (addressed) r.push_back(expNak(d, requester, P));
   return r;
 }
-static bool same(const Exp &e, const Dm &m) { return m.complete && e.pgn == m.pgn && e.src == m.src && e.dst == m.dst && e.d == m.d; }
-static int devOfSrc(unsigned s) { for (int i = 0; i < nDev; i++) if (N->src(i) == s) return i; return -1; }
+// a received address claim can move a device to a new address in the middle of a poll: what the poll sent before
+// that (a due retry) still carries the address the device had when the poll began
+static unsigned prevSrc[16];
+static bool srcMatches(unsigned esrc, unsigned msrc) { if (esrc == msrc) return true; for (int i = 0; i < nDev; i++) if (N->src(i) == esrc && prevSrc[i] == msrc) return true; return false; }
+static bool same(const Exp &e, const Dm &m) { return m.complete && e.pgn == m.pgn && srcMatches(e.src, m.src) && e.dst == m.dst && e.d == m.d; }
+static int devOfSrc(unsigned s) { for (int i = 0; i < nDev; i++) if (N->src(i) == s) return i; for (int i = 0; i < nDev; i++) if (prevSrc[i] == s) return i; return -1; }
+static int devOfName(const unsigned char *p) { uint64_t nm = 0; for (int i = 0; i < 8; i++) nm |= (uint64_t)p[i] << (8 * i); for (int i = 0; i < nDev; i++) if (N->name(i) == nm) return i; return -1; }
+// an address claim identifies its sender by the NAME it carries (several devices may sit on the null address 254)
+static int devOfMsg(const Dm &m) { if (m.pgn == 60928UL && m.complete && m.d.size() == 8) { int d = devOfName(m.d.data()); if (d >= 0 && N->src(d) == m.src) return d; } return devOfSrc(m.src); }
 
 struct Viol { std::string key, text; };
 struct ReqInfo { bool isRq; unsigned requester, dst; unsigned long P; bool wellFormed; };
@@ -166,12 +174,14 @@ static std::vector<Viol> judge(const ReqInfo &q, const std::vector<Frame> &fresh
   char tb[256];
   // group the decoded messages by device
   std::vector<std::vector<Dm>> by(nDev);
-  for (auto &m : dec) { int d = devOfSrc(m.src); if (d < 0) { snprintf(tb, sizeof tb, "frame from address %u which is no device of the node", m.src); v.push_back({"C08:foreign-source:" + cls, tb}); continue; } by[d].push_back(m); }
+  for (auto &m : dec) { int d = devOfMsg(m); if (d < 0) { snprintf(tb, sizeof tb, "frame from address %u which is no device of the node", m.src); v.push_back({"C08:foreign-source:" + cls, tb}); continue; } by[d].push_back(m); }
   for (int d = 0; d < nDev; d++) {
     bool target = q.isRq && node && (q.dst == 255 || q.dst == N->src(d)) && (q.dst == 255 || q.dst <= 253);
     bool claiming = g_now < claimUntil[d];
     bool edge = claimUntil[d] != 0 && g_now == claimUntil[d];          // the two timer builds differ at this one instant
     std::vector<Exp> exp; if (target && !claiming) exp = expectedFor(d, q.requester, addressed, q.P);
+    // a device that could not claim any address (null address 254) can say nothing but its cannot-claim message
+    if (N->src(d) == 254) { std::vector<Exp> only; for (auto &e : exp) if (e.pgn == 60928UL) only.push_back(e); exp = only; if (target) C.count("requests_to_null_address_device"); }
     // a retry attempted inside the claim window is refused by SendMsg and re-arms its timer
     if (claiming || edge) { if (owedProd[d]) armProdAt[d] = g_now; if (owedConf[d]) armConfAt[d] = g_now; }
     // --- never: NAK to a broadcast request, NAK to somebody else than the requester, anything while claiming
@@ -253,15 +263,25 @@ static std::string caseDesc;
 static std::string framesStr(const std::vector<Frame> &g) { std::string s; for (auto &f : g) { if (!s.empty()) s += ' '; s += frameStr(f); } return s.empty() ? "-" : s; }
 
 // returns true when the oracle is satisfied; `record` = op line already written (violations are reported)
-static bool runParse(const ReqInfo &q, bool record) {
+static bool runParse(const ReqInfo &q, bool record, bool claimRx = false) {
   unsigned q0 = N->queued(); long r0 = N->refused; hsends.clear();
+  unsigned srcBefore[16]; for (int i = 0; i < nDev; i++) srcBefore[i] = prevSrc[i] = N->src(i);
   N->ParseMessages();
   std::vector<Frame> got = N->sent; N->sent.clear();
   std::vector<Frame> stream = got; unsigned qn = N->queued(); for (unsigned k = 0; k < qn; k++) stream.push_back(N->queuedFrame(k));
   std::vector<Frame> fresh(stream.begin() + std::min<size_t>(q0, stream.size()), stream.end());
   bool refusals = N->refused != r0;
+  std::vector<std::pair<int, bool>> claims;     // (device, claim for a NEW address) seen in this poll
+  if (claimRx) {
+    // the node's own address claims in answer to a received claim are not answers to a request: take them out, and
+    // note which device announced a new address (its 250 ms claim window starts now - applied after judging)
+    std::vector<Frame> rest;
+    for (auto &f : fresh) { unsigned pf = (f.id >> 16) & 0xff, dp = (f.id >> 24) & 1; if (pf == 0xEE && dp == 0 && f.len == 8) { int d = devOfName(f.buf); if (d >= 0) { claims.push_back({d, (f.id & 0xff) != srcBefore[d]}); continue; } } rest.push_back(f); }
+    fresh = rest;
+  }
   std::string cls; bool nontriv = false;
   std::vector<Viol> v = judge(q, fresh, refusals, q0 != 0, cls, nontriv);
+  for (auto &c : claims) if (c.second && (mode == 1 || mode == 2)) { claimUntil[c.first] = g_now + 250; C.count(N->src(c.first) == 254 ? "device_driven_to_null_address" : "device_moved_to_next_address"); }
   if (record) {
     C.outs(std::string("- ") + framesStr(got));
     for (auto &x : v) C.fail(x.key, "%s", x.text.c_str());
@@ -376,6 +396,11 @@ static void exec(const std::string &line) {
     int d = atoi(w[1].c_str()); if (d < 0 || d >= nDev) { C.out("bad-op"); return; }
     N->claim(d); if (mode == 1 || mode == 2) claimUntil[d] = g_now + 250;
     std::vector<Frame> got = N->sent; N->sent.clear(); C.outs(std::string("- ") + framesStr(got)); return;
+  }
+  if (w[0] == "aclaim" && w.size() == 3) {
+    unsigned src = num(w[1]) & 0xff; uint64_t nm = strtoull(w[2].c_str(), 0, 16); unsigned char b[8]; for (int i = 0; i < 8; i++) b[i] = (unsigned char)(nm >> (8 * i));
+    N->rx((6UL << 26) | (0xEEUL << 16) | (0xFFUL << 8) | src, 8, b);
+    ReqInfo q{false, 0, 0, 0, true}; runParse(q, true, true); return;
   }
   if (w[0] == "rq" && w.size() == 4) {
     unsigned requester = num(w[1]) & 0xff, dst = num(w[2]) & 0xff; unsigned long P = num(w[3]) & 0xffffffUL;
@@ -492,7 +517,8 @@ static void randomCase(Rng &R, const char *flavor) {
   for (int i = 0; i < nops; i++) {
     unsigned k = (unsigned)R.below(100);
     if (k < 60) genRq(R, devs);
-    else if (k < 68) exec("claim " + std::to_string(R.below(devs)));
+    else if (k < 66) exec("claim " + std::to_string(R.below(devs)));
+    else if (k < 68) { char cb[64]; snprintf(cb, sizeof cb, "aclaim %u %s", R.chance(4, 5) ? (unsigned)N->src((int)R.below(devs)) : (unsigned)R.below(256), R.chance(1, 2) ? "0" : "ffffffffffffffff"); exec(cb); }
     else if (k < 82) exec("t " + std::to_string(R.chance(1, 3) ? R.range(0, 5) : (R.chance(1, 2) ? R.range(240, 260) : R.range(0, 2500))));
     else if (k < 90) exec("poll");
     else if (backpressure && k < 96) { std::string bits; int n = (int)R.range(1, 30); for (int j = 0; j < n; j++) bits += R.chance(1, 2) ? '1' : '0'; exec("acc " + bits); }
@@ -543,6 +569,25 @@ static void bothPendingCase(Rng &R, const char *flavor, int shape) {
   }
 }
 
+// a device loses every address (252 contested claims with a lower NAME, inside the claim windows) and ends on the null
+// address 254 with its cannot-claim message; requests arrive inside, at the edge of and after the 250 ms window
+static void nullAddressCase(Rng &R, const char *flavor) {
+  int devs = (int)R.range(1, 3);
+  newCase(R, flavor, devs, R.chance(1, 2) ? 1 : 2, 40, R.chance(1, 2));
+  int d = (int)R.below(devs); char b[96];
+  for (int guard = 0; guard < 400 && N->src(d) != 254; guard++) { snprintf(b, sizeof b, "aclaim %u %llx", N->src(d), (unsigned long long)R.below(1000)); exec(b); }
+  if (N->src(d) != 254) { C.fail("harness:null-address-not-reached", "device %d still at %u", d, N->src(d)); return; }
+  uint64_t spent = 0;
+  auto ask = [&](unsigned long P) { snprintf(b, sizeof b, "rq %u 255 %lu", (unsigned)R.below(250), P); exec(b); };
+  ask(60928); if (R.chance(1, 2)) ask(126996);
+  uint64_t t1 = (uint64_t)R.range(1, 248); exec("t " + std::to_string(t1)); spent += t1; ask(60928); ask(R.chance(1, 2) ? 126996UL : 126464UL);
+  if (R.chance(1, 2)) { uint64_t t2 = (uint64_t)R.range(0, 249 - (int64_t)spent); exec("t " + std::to_string(t2)); spent += t2; ask(60928); }
+  exec("t " + std::to_string(250 - spent)); ask(60928);          // the edge instant
+  exec("t 1"); ask(60928); ask(126996); ask(4711);
+  exec("t " + std::to_string(R.range(0, 600))); exec("poll"); ask(60928);
+  if (R.chance(1, 2)) { snprintf(b, sizeof b, "rq %u 254 60928", (unsigned)R.below(250)); exec(b); }
+}
+
 int main(int argc, char **argv) {
   C.init(argc, argv);
   C.rule = "case = one node (new..) with its op sequence; non-trivial = a request that must draw an answer or falls into a claim window; distinct = (answer class, addressed/broadcast, requested PGN, device count, handler mode, driver refusal)";
@@ -589,7 +634,7 @@ int main(int argc, char **argv) {
   }
   // (3) random configurations and histories
   int ncases = C.thorough ? 3000 : 400;
-  for (int i = 0; i < ncases; i++) { randomCase(R, flavor); if (i % 4 == 0) retryCase(R, flavor); if (i % 4 == 1) bothPendingCase(R, flavor, i / 4); }
+  for (int i = 0; i < ncases; i++) { randomCase(R, flavor); if (i % 4 == 0) retryCase(R, flavor); if (i % 4 == 1) bothPendingCase(R, flavor, i / 4); if (i % 40 == 2) nullAddressCase(R, flavor); }
   // (4) thorough: all 2^24 PGNs against the oracle, and a stratified subset through the model
   if (C.thorough) {
     char b[160]; snprintf(b, sizeof b, "new %s 40 1 3 123456", flavor); exec(b);
